@@ -2,5 +2,5 @@
 # seed_batch.sh "<pid>:<checks...>" ...   runs seedcheck for each seed with the given checks
 for spec in "$@"; do
   pid=${spec%%:*}; checks=$(echo "${spec#*:}" | tr ',' ' ')
-  /verif/tools/seedcheck.py /tmp/seed/out/$pid $checks > /verif/out/seed_$pid.$(date +%H%M%S).log 2>&1
+  /verif/tools/seedcheck.py ${SEED_ROOT:-/tmp/seed/out}/$pid $checks > /verif/out/seed${SEED_TAG:-}_$pid.$(date +%H%M%S).log 2>&1
 done
